@@ -432,9 +432,28 @@ var malformed = []message.Message{
 
 var _ = MessageBadUnexported{}.b
 
+// messages at the ends of the id range a v2 frame can carry
+type MessageEdgeTop struct{ A uint8 }
+
+func (*MessageEdgeTop) GetID() uint32 { return 1<<24 - 1 }
+
+type MessageEdgeBelowTop struct{ A uint16 }
+
+func (*MessageEdgeBelowTop) GetID() uint32 { return 1<<24 - 2 }
+
+type MessageEdgeSixteenBits struct{ A uint32 }
+
+func (*MessageEdgeSixteenBits) GetID() uint32 { return 65535 }
+
+type MessageEdgeSeventeenBits struct{ A uint8 }
+
+func (*MessageEdgeSeventeenBits) GetID() uint32 { return 65536 }
+
+var edgeMessages = []message.Message{&MessageEdgeTop{}, &MessageEdgeBelowTop{}, &MessageEdgeSixteenBits{}, &MessageEdgeSeventeenBits{}}
+
 func TestC17Generated(t *testing.T) {
 	rec := evid.New(t, "C17", "generated dialects: random subsets of shipped and user message types with injected faults - a duplicate id at a random position, or a malformed struct of every documented class (name prefix, enum not uint64, unsupported/non-enum mavenum type, unsupported Go field type incl. named scalar/string/array-element types and an enum type without its mavenum tag, non-numeric mavlen) plus oversize (>255 bytes, array/string longer than 255) and unexported fields; Initialize must return an error (never nil followed by a panic at first Read/Write); fault-free dialects must initialize and serve every id; non-trivial = fault injected after >= 1 good message; distinct by hash of the id/type list")
-	rec.Require("duplicate-id", "malformed-struct", "fault-free", "oversize-or-unexported", "dialect-object-edited-in-place")
+	rec.Require("duplicate-id", "malformed-struct", "fault-free", "oversize-or-unexported", "dialect-object-edited-in-place", "message-id-at-an-end-of-the-range")
 	tys := types(t)
 	// some cases re-initialize ONE dialect object that is edited in place between cases (same or different
 	// number of messages): what Initialize decides must depend on the dialect as it is now, not on earlier calls
@@ -450,6 +469,13 @@ func TestC17Generated(t *testing.T) {
 			}
 			used[ti.msg.GetID()] = true
 			msgs = append(msgs, ti.msg)
+		}
+		for _, em := range rapid.SliceOfNDistinct(rapid.SampledFrom(edgeMessages), 0, 2, func(m message.Message) uint32 { return m.GetID() }).Draw(t, "edge_ids") {
+			if !used[em.GetID()] {
+				used[em.GetID()] = true
+				at := rapid.IntRange(0, len(msgs)).Draw(t, "edge_pos")
+				msgs = append(msgs[:at], append([]message.Message{em}, msgs[at:]...)...)
+			}
 		}
 		fault := rapid.SampledFrom([]string{"none", "duplicate", "duplicate", "malformed", "malformed"}).Draw(t, "fault")
 		cls := []string{}
@@ -518,6 +544,14 @@ func TestC17Generated(t *testing.T) {
 				c := rw.GetMessage(m.GetID())
 				if c == nil || reflect.TypeOf(c.Message) != reflect.TypeOf(m) {
 					t.Fatalf("GetMessage(%d) wrong in generated dialect %s", m.GetID(), desc())
+				}
+				if m.GetID() >= 65535 {
+					cls = append(cls, "message-id-at-an-end-of-the-range")
+				}
+			}
+			for _, id := range []uint32{0, 255, 256, 65535, 65536, 1<<24 - 2, 1<<24 - 1, 1 << 24, 1<<32 - 1} {
+				if c := rw.GetMessage(id); c != nil && !used[id] {
+					t.Fatalf("GetMessage(%d) returns the codec of %T in generated dialect %s, which has no such id", id, c.Message, desc())
 				}
 			}
 			cls = append(cls, "fault-free")
